@@ -443,6 +443,16 @@ def run(chk):
         programs.append(gen.random_program(rng, alpha, rng.randint(5, 11), typed=fprofile.INPUTS))
     methods = [{"phases": [{"name": "p0", "next": rng.choice(["p0", "p1"]), "calls": c},
                            {"name": "p1", "next": "p0", "calls": fprofile.P1_CALLS}], "initial": "p0"} for c in programs]
+    # both phases use the same temporary names and call the right-hand side inside expressions
+    twin = [fprofile.CALL_IN_EXPR] + fprofile.core_shapes()[:4]
+    methods += [{"phases": [{"name": "p0", "next": "p1", "calls": c}, {"name": "p1", "next": "p0", "calls": fprofile.P1_SAME_NAMES}],
+                 "initial": "p0"} for c in twin]
+    methods += [{"phases": [{"name": "p0", "next": "p1", "calls": c}, {"name": "p1", "next": "p0", "calls": fprofile.P1_LAST_USE_IN_CALL}],
+                 "initial": "p0"} for c in twin[:2]]
+    methods += [{"phases": [{"name": "p0", "next": "p1", "calls": fprofile.P1_LAST_USE_IN_CALL[2:4] + [fprofile.yield_(fprofile.V(fprofile.Y))]},
+                            {"name": "p1", "next": "p0", "calls": fprofile.P1_SAME_NAMES}], "initial": "p0"}]
+    methods += [{"phases": [{"name": "p0", "next": "p1", "calls": fprofile.CALL_IN_EXPR + [{"op": "switch", "to": "p1"}]},
+                            {"name": "p1", "next": "p0", "calls": fprofile.CALL_IN_EXPR[:3] + [{"op": "switch", "to": "p0"}]}], "initial": "p0"}]
     with multiprocessing.Pool(NCPU) as pool_:
         cases = pool_.map(prepare, methods, chunksize=4)
     chk.stage("generate_extract")
